@@ -59,6 +59,10 @@ func (o *OvsMap) UnmarshalJSON(b []byte) (err error) {
 				if err != nil {
 					return err
 				}
+				if _, isUUID := goSlice.(UUID); !isUUID {
+					// the only atom written as an array is a uuid
+					return &json.UnmarshalTypeError{Value: reflect.ValueOf(oMap).String(), Type: reflect.TypeOf(*o)}
+				}
 				k = goSlice
 			case map[string]interface{}:
 				// a json object is not an atom (and not hashable)
